@@ -20,9 +20,17 @@ pub fn run_migrations(conn: &mut Connection) -> Result<(), Error> {
     // As the code used to be part of the rust-nostr project
     // and we need to keep the same migration table name for backwards compatibility
     let migration_table_name = "_refinery_schema_history_nostr_mls";
+    // Verification hook: a tick before every commit the migration runner makes.
+    #[cfg(feature = "verif-hooks")]
+    conn.commit_hook(Some(|| {
+        crate::verif::tick(crate::verif::Point::Open("migrate:commit"));
+        false
+    }));
     let report = migrations::runner()
         .set_migration_table_name(migration_table_name)
         .run(conn)?;
+    #[cfg(feature = "verif-hooks")]
+    conn.commit_hook(None::<fn() -> bool>);
 
     // Log the results
     for migration in report.applied_migrations() {
